@@ -987,11 +987,25 @@ def stub_module(dotted):
                 acc = I.call(fn, [acc, x], {})
             return acc
 
+        def memoised(fn):
+            # functools.lru_cache / cache, modelled faithfully: results are remembered per argument tuple (argument equality as
+            # Python's ==, so objects without value equality are keyed by identity) for the duration of one path execution
+            def call(a, k):
+                table = CTX.__dict__.setdefault('memo_tables', {}).setdefault(id(fn), [])
+                for a0, k0, r0 in table:
+                    if len(a0) == len(a) and set(k0) == set(k) and all(truth(eq_value(x, y)) for x, y in zip(a0, a)) and all(truth(eq_value(k0[n], k[n])) for n in k):
+                        return r0
+                r = interp_ref[0].call(fn, list(a), dict(k))
+                table.append((list(a), dict(k), r))
+                return r
+            b = Builtin('lru_cache:' + getattr(fn, 'name', '?'), call)
+            b.attrs = {'cache_clear': Builtin('cache_clear', lambda a, k: CTX.__dict__.setdefault('memo_tables', {}).pop(id(fn), None)), '__wrapped__': fn}
+            return b
+
         def cache_deco(args, kw):
-            # functools.lru_cache / cache: memoisation of a PURE function does not change its results (assumed pure)
             if args and not kw and isinstance(args[0], (FunctionVal, BoundMethod)):
-                return args[0]
-            return Builtin('lru_cache(...)', lambda a, k: a[0])
+                return memoised(args[0])
+            return Builtin('lru_cache(...)', lambda a, k: memoised(a[0]))
         return StubModule('functools', {'partial': Builtin('partial', _partial), 'reduce': _B('reduce', reduce),
                                         'lru_cache': Builtin('lru_cache', cache_deco), 'cache': Builtin('cache', cache_deco),
                                         'wraps': Builtin('wraps', lambda a, k: Builtin('wraps(...)', lambda a2, k2: a2[0]))})
@@ -1012,7 +1026,9 @@ def stub_module(dotted):
                 return _B('attrgetter(...)', lambda obj: one(obj, names[0]))
             return _B('attrgetter(...)', lambda obj: tuple(one(obj, n) for n in names))
         binops = {'add': '+', 'sub': '-', 'mul': '*', 'truediv': '/'}
-        table = {'itemgetter': _B('itemgetter', itemgetter), 'attrgetter': _B('attrgetter', attrgetter),
+        def methodcaller(name, *margs, **mkw):
+            return _B('methodcaller(...)', lambda obj: I_().call(I_().getattr(obj, name), list(margs), dict(mkw)))
+        table = {'itemgetter': _B('itemgetter', itemgetter), 'attrgetter': _B('attrgetter', attrgetter), 'methodcaller': _B('methodcaller', methodcaller),
                  'neg': _B('neg', lambda x: ops.neg(x)), 'eq': _B('eq', lambda a, b: eq_value(a, b)),
                  'not_': _B('not_', lambda x: ops.s_not(truth(x) if not isinstance(force(x), (bool, SBool)) else force(x)))}
         for nm, op in binops.items():
